@@ -509,8 +509,75 @@ theorem shrink_shortcut_counterexample :
     (submitEnsure { p with maxWorkers := 2 }).alive = 4 ∧ (submitEnsure (resize p 2)).alive = 2 := by
   decide
 
+
+/-! ## The thread pool of one `ThreadingBackend` instance over a history of calls -/
+
+/-- `thread_pool_exact`. One `ThreadingBackend` instance — at ANY nesting level: the instance a
+`parallel_config(backend="threading")` block hands to every call, or the nested instance that
+`BatchedCalls` installs for all the tasks of a batch in a thread, loky or multiprocessing worker —
+serves ANY history of statements `Parallel(n_jobs=n)(…)` and `with Parallel(n_jobs=n) as p: p(…); p(…)`
+with growing and shrinking `n` (also `n = 1`, which falls back to the sequential backend), each with
+any number of tasks. Provided a `with` block contains only calls of its own `Parallel` object
+(`TCall.clean`): EVERY task of EVERY call is put on a pool of exactly the call's resolved `n_jobs`
+threads — never on a pool left by an earlier call — and once the history is over the instance holds
+no pool. -/
+theorem thread_pool_exact (cs : List TCall) (hc : ∀ c ∈ cs, c.clean = true) (b : TBackend)
+    (hb : b.pool = none) :
+    (∀ o ∈ (tRun .asIs b cs).2, ∀ k ∈ o.sizes, k = o.n) ∧ (tRun .asIs b cs).1.pool = none := by
+  induction cs generalizing b with
+  | nil => simp [tRun, hb]
+  | cons c rest ih =>
+    have hrest : ∀ c ∈ rest, c.clean = true := fun c h => hc c (List.mem_cons_of_mem _ h)
+    cases c with
+    | plain n t =>
+      obtain ⟨p1, p2, _⟩ := tPlain_asIs n t b hb
+      obtain ⟨h1, h2⟩ := ih hrest _ p2
+      simp only [tRun]
+      refine ⟨?_, h2⟩
+      intro o ho
+      simp only [List.mem_cons] at ho
+      rcases ho with ho | ho
+      · subst ho; exact p1
+      · exact h1 o ho
+    | managed n body =>
+      have hbody : ownOnly body = true := hc (.managed n body) (List.mem_cons_self ..)
+      obtain ⟨p1, p2⟩ := tManaged_asIs n body hbody b hb
+      obtain ⟨h1, h2⟩ := ih hrest _ p2
+      simp only [tRun]
+      refine ⟨?_, h2⟩
+      intro o ho
+      simp only [List.mem_append] at ho
+      rcases ho with ho | ho
+      · intro k hk; rw [(p1 o ho).1]; exact (p1 o ho).2 k hk
+      · exact h1 o ho
+
+/-- Every task of a plain call with `n ≠ 1` is observed (the statement above is not about an empty
+list of sizes). -/
+theorem thread_pool_sees_every_task (n t : Nat) (hn : n ≠ 1) (b : TBackend) (hb : b.pool = none) :
+    (tPlain .asIs b n t).2 = List.replicate t n := by
+  obtain ⟨h1, _, h3⟩ := tPlain_asIs n t b hb
+  exact List.eq_replicate_iff.mpr ⟨h3 hn, h1⟩
+
+/-- Why `terminate()` at the end of every unmanaged call (and a pool built lazily with exactly
+`_n_jobs` threads) matters: an instance that keeps its pool for the next call and rebuilds it only
+when it is too SMALL puts the three tasks of the `n_jobs=2` call on the 4 threads left by the
+`n_jobs=4` call. -/
+theorem kept_pool_counterexample :
+    (tRun .keepLarger TBackend.fresh [.plain 4 3, .plain 2 3]).2
+      = [⟨4, [4, 4, 4], some 4⟩, ⟨2, [4, 4, 4], some 4⟩] := by decide
+
+/-- The hypothesis `clean` cannot be dropped, in the model AND in the code (finding reported by the
+check under `C15_FOREIGN_IN_MANAGED=1`): another `Parallel(n_jobs=2)` call made inside
+`with Parallel(n_jobs=4) as p` through the same instance runs on p's 4 threads, then terminates
+them, and p's next call runs on 2. -/
+theorem foreign_call_in_managed_block_counterexample :
+    (tRun .asIs TBackend.fresh [.managed 4 [.own 2, .foreign 2 2, .own 2]]).2
+      = [⟨4, [4, 4], some 4⟩, ⟨2, [4, 4], none⟩, ⟨4, [2, 2], some 2⟩] := by decide
+
 /-! ## Non-vacuity -/
 example : PoolWF ⟨4, 4, true⟩ := by simp [PoolWF]
+example : (tRun .asIs TBackend.fresh [.plain 4 2, .managed 3 [.own 1, .own 2], .plain 1 5, .plain 2 2]).2
+    = [⟨4, [4, 4], none⟩, ⟨3, [3], some 3⟩, ⟨3, [3, 3], some 3⟩, ⟨1, [], none⟩, ⟨2, [2, 2], none⟩] := by decide
 example : (submitEnsure (getReusableExecutor (some ⟨2, 2, true⟩) true 4)).alive = 4 := by decide
 example : guarded .loky (some 0) ⟨false, false, true, 0, 8⟩ = false := by decide
 example : guarded .multiprocessing (some 1) ⟨false, false, false, 0, 8⟩ = true := by decide
